@@ -510,6 +510,18 @@ impl World {
             5 => cdk_cost,
             _ => maximum / 2,
         };
+        // The client library's amount must cover the canister's default maximum for the same
+        // network and endpoint (checked against the default fee tables only).
+        if !self.fees_explicit && maximum > 0 && matches!(endpoint, 0 | 1 | 2 | 3 | 4) {
+            self.stats.oracle_comparisons += 1;
+            if cdk_cost < maximum {
+                return Err(violation(
+                    "C16",
+                    "client-cost-below-maximum",
+                    format!("endpoint {endpoint} on {}: ic-cdk-bitcoin-canister attaches {cdk_cost} cycles, the canister's default maximum is {maximum}", self.network),
+                ));
+            }
+        }
         let is_query = matches!(endpoint, 5 | 6);
         let gate_open = if endpoint == 4 { self.api_access } else { self.data_gate_open() };
         canister::set_attached_cycles(Some(attached));
